@@ -246,8 +246,9 @@ class Rinex2Parser(ChainParser):
                 (line[10:11] == "." or line[0:16].isspace())  # Accepting of value or blank entry
                 and not line[32:33].isalpha()  # Continuation of satellite list
                 and not (
-                    line[34:35].isnumeric() and line[35:36].isspace()
-                )  # Continuation of satellite list with blank satellite system identifier (GPS only)
+                    line[34:35].isnumeric() and not line[35:36].strip()
+                )  # Continuation of satellite list with blank satellite system identifier (GPS only), also with
+                # a single satellite (the line ends after the satellite number)
                 and not line[60:61].isalpha()
             ),  # Comment line
             parser_def={
